@@ -366,6 +366,27 @@ func (e *pathEngine) resolve(v Val) Val {
 				}
 			}
 			return v
+		case *ssa.Field:
+			// field of a struct value built in a local, non-escaping variable (a small helper type
+			// carrying a few values: `span := begin(bar)` ... `span.end(n)`)
+			if fv, ok := e.structField(Val{x.X, v.F, v.E}, x.Field, 0); ok {
+				v = fv
+				continue
+			}
+			return v
+		case *ssa.UnOp:
+			if x.Op == token.MUL {
+				if fa, ok := x.X.(*ssa.FieldAddr); ok {
+					base := e.resolve(Val{fa.X, v.F, v.E})
+					if al, ok := base.V.(*ssa.Alloc); ok {
+						if fv, ok := e.allocField(Val{al, base.F, base.E}, al, fa.Field, 0); ok {
+							v = fv
+							continue
+						}
+					}
+				}
+			}
+			return v
 		case *ssa.Extract:
 			if call, ok := x.Tuple.(*ssa.Call); ok {
 				if r, ok := v.E.lookup(callKey{v.F, call}); ok {
@@ -566,9 +587,51 @@ func (p *Path) storeField(ev Event) (fieldRef, Val, bool) {
 	}
 	f, ok := fieldOf(st.Addr)
 	if !ok {
-		return fieldRef{}, Val{}, false
+		// a store through a pointer the path resolves to a field address (`*z += d` in a helper
+		// called with &x.f)
+		if a := p.val(ev, st.Addr); a.V != st.Addr {
+			f, ok = fieldOf(a.V)
+		}
+		if !ok {
+			return fieldRef{}, Val{}, false
+		}
 	}
 	return f, p.val(ev, st.Val), true
+}
+
+// loadsField: v is a load of owner.name, directly or through a pointer that the path resolves
+// to that field's address; conversions around the load are ignored.
+func (p *Path) loadsField(v Val, owner, name string) bool {
+	for i := 0; i < 4; i++ {
+		sv := stripConv(v.V)
+		if sv == v.V {
+			break
+		}
+		v = p.R(Val{sv, v.F, v.E})
+	}
+	if isLoad(v, owner, name) {
+		return true
+	}
+	u, ok := v.V.(*ssa.UnOp)
+	if !ok || u.Op != token.MUL {
+		return false
+	}
+	a := p.R(Val{u.X, v.F, v.E})
+	f, ok := fieldOf(a.V)
+	return ok && f.Owner == owner && f.Name == name
+}
+
+// stripR: resolve, strip value-preserving conversions, resolve again.
+func (p *Path) stripR(v Val) Val {
+	v = p.R(v)
+	for i := 0; i < 4; i++ {
+		sv := stripConv(v.V)
+		if sv == v.V {
+			break
+		}
+		v = p.R(Val{sv, v.F, v.E})
+	}
+	return v
 }
 
 func (p *Path) describe() []string {
@@ -724,4 +787,93 @@ func (e *pathEngine) atomKey(c Val, pol bool) (atomKeyT, bool, bool) {
 		return k, pol, true
 	}
 	return atomKeyT{}, false, false
+}
+
+
+// localStruct: al is a struct variable whose address never leaves its function: every use is a
+// field address that is only stored to / loaded from, or a load/store of the whole value.
+func localStruct(al *ssa.Alloc) bool {
+	if structOf(al.Type()) == nil || al.Referrers() == nil {
+		return false
+	}
+	switch typeName(al.Type()) {
+	case tBState, tPState, tBar, "mpb.Progress":
+		return false // actor-owned state is reasoned about by the confinement rules, not by value
+	}
+	for _, ref := range *al.Referrers() {
+		switch x := ref.(type) {
+		case *ssa.FieldAddr:
+			if x.Referrers() == nil {
+				continue
+			}
+			for _, r2 := range *x.Referrers() {
+				switch y := r2.(type) {
+				case *ssa.Store:
+					if y.Addr != ssa.Value(x) {
+						return false
+					}
+				case *ssa.UnOp, *ssa.DebugRef:
+				default:
+					return false
+				}
+			}
+		case *ssa.Store:
+			if x.Addr != ssa.Value(al) {
+				return false
+			}
+		case *ssa.UnOp, *ssa.DebugRef:
+		default:
+			return false
+		}
+	}
+	return true
+}
+
+// allocField: the value of field idx of the local struct variable al (resolved in frame av.F):
+// its single field store, or the field of the single whole value stored into it.
+func (e *pathEngine) allocField(av Val, al *ssa.Alloc, idx int, depth int) (Val, bool) {
+	if depth > 4 || !localStruct(al) {
+		return Val{}, false
+	}
+	var fieldStores, wholeStores []*ssa.Store
+	for _, ref := range *al.Referrers() {
+		switch x := ref.(type) {
+		case *ssa.FieldAddr:
+			if x.Field != idx || x.Referrers() == nil {
+				continue
+			}
+			for _, r2 := range *x.Referrers() {
+				if st, ok := r2.(*ssa.Store); ok {
+					fieldStores = append(fieldStores, st)
+				}
+			}
+		case *ssa.Store:
+			wholeStores = append(wholeStores, x)
+		}
+	}
+	switch {
+	case len(fieldStores) == 1 && len(wholeStores) == 0:
+		return e.resolve(Val{fieldStores[0].Val, av.F, av.E}), true
+	case len(fieldStores) == 0 && len(wholeStores) == 1:
+		return e.structField(Val{wholeStores[0].Val, av.F, av.E}, idx, depth+1)
+	}
+	return Val{}, false
+}
+
+// structField: field idx of the struct value sv, when sv resolves to the content of a local struct variable.
+func (e *pathEngine) structField(sv Val, idx int, depth int) (Val, bool) {
+	if depth > 4 {
+		return Val{}, false
+	}
+	sv = e.resolve(sv)
+	ld, ok := sv.V.(*ssa.UnOp)
+	if !ok || ld.Op != token.MUL {
+		return Val{}, false
+	}
+	base := e.resolve(Val{ld.X, sv.F, sv.E})
+	al, ok := base.V.(*ssa.Alloc)
+	if !ok {
+		return Val{}, false
+	}
+	return e.allocField(Val{al, base.F, base.E}, al, idx, depth)
 }
